@@ -135,32 +135,35 @@ def basisCol (strip : Bool) (comb : BStat → Comb) (zones : Nat → X κ) (valu
   let per := blocks.map (blockStats strip zones values valid uniq sel s)
   (List.range uniq.length).map (fun k => (comb s).eval (per.map (fun col => col.getD k none)))
 
+/-- the columns of `stats_dict`: the four basis statistics as combined, mean / var / std through
+    `_dask_mean`, `_dask_var`, `_dask_std` on `sum`, `count`, `sum_squares` and `sum ** 2` -/
+def daskCol (sqrt : F → F) (basis : BStat → List (Option F)) : Stat → List (Option F)
+  | .max => basis .max
+  | .min => basis .min
+  | .sum => basis .sum
+  | .count => basis .count
+  | .mean => List.zipWith daskMean (basis .sum) (basis .count)
+  | .var => zipWith3' daskVar (basis .sumSquares) ((basis .sum).map (fun s => oMul s s)) (basis .count)
+  | .std => zipWith3' (daskStd sqrt) (basis .sumSquares) ((basis .sum).map (fun s => oMul s s)) (basis .count)
+
+/-- `if row['zone'] in zone_ids` (every row when `zone_ids` is None) -/
+def keepRow : Option (List κ) → κ → Bool
+  | none, _ => true
+  | some r, u => r.contains u
+
 /-- `_stats_dask_numpy(...).compute()`; `none` = the call raises -/
 def daskStats (strip : Bool) (comb : BStat → Comb) (sqrt : F → F) (zones : Nat → X κ) (values : Nat → X F)
     (cells : List Nat) (valid : X F → Bool) (blocks : List Block) (stats : List Stat)
     (zoneIds : Option (List κ)) : Option (Table κ (Option F)) :=
   if blocks.any (fun b => !b.ok) then none else
   let uniq := uniqueZones zones cells
-  let ids := zoneIds.getD uniq
-  let sel := fun u => ids.contains u
+  let sel := fun u => (zoneIds.getD uniq).contains u       -- `unique_zones[i] in zone_ids` inside every block
   let basis := basisCol strip comb zones values valid uniq sel blocks
-  let sq := (basis .sum).map (fun s => oMul s s)                    -- stats_dict['sum'] ** 2
-  let col : Stat → List (Option F) := fun
-    | .max => basis .max
-    | .min => basis .min
-    | .sum => basis .sum
-    | .count => basis .count
-    | .mean => List.zipWith daskMean (basis .sum) (basis .count)
-    | .var => zipWith3' daskVar (basis .sumSquares) sq (basis .count)
-    | .std => zipWith3' (daskStd sqrt) (basis .sumSquares) sq (basis .count)
-  -- `if row['zone'] in zone_ids` (every row when zone_ids is None)
-  let keep := fun u => match zoneIds with
-    | none => true
-    | some r => r.contains u
-  let rows := uniq.filter keep
+  let rows := uniq.filter (keepRow zoneIds)
   if zoneIds.isSome && rows.isEmpty then none      -- dd.concat([]) raises
   else some { zone := rows
-              cols := stats.map (fun s => ((uniq.zip (col s)).filter (fun p => keep p.1)).map Prod.snd) }
+              cols := stats.map (fun s =>
+                ((uniq.zip (daskCol sqrt basis s)).filter (fun p => keepRow zoneIds p.1)).map Prod.snd) }
 
 end stats
 
